@@ -1,6 +1,6 @@
 """C31 worker (runs against the scratch copy of cffi).
 
-op=regex: texts through the real regular expressions / _preprocess of cffi.cparser
+op=regex: texts through the real regular expressions / _preprocess / _common_type_names of cffi.cparser
 op=meta : base and variant cdef through the real parser; summaries compared
 """
 import os
@@ -24,6 +24,8 @@ def do_regex(cases):
             res.append(cparser._r_comment.sub(lambda m: ' ' + m.group().count('\n') * '\n', t))
         elif c["kind"] == "words":
             res.append(cparser._r_words.findall(t))
+        elif c["kind"] == "ctn":
+            res.append(sorted(cparser._common_type_names(t)))
         else:
             try:
                 out, macros = cparser._preprocess(t)
@@ -157,7 +159,8 @@ def do_meta(cases):
 
 def main(payload):
     if payload["op"] == "regex":
-        return dict(results=do_regex(payload["cases"]))
+        from cffi.commontypes import COMMON_TYPES
+        return dict(results=do_regex(payload["cases"]), common=sorted(COMMON_TYPES))
     return dict(results=do_meta(payload["cases"]))
 
 
